@@ -57,6 +57,16 @@ CHECKS = {
          "BED/TSV agree, the read's contribution to each count table (difference to the same world without the read) <= 1.",
          "Trusted: reference model in props/c08.py. Exact duplicates are records equal in all fields but assignment id. One known finding (tied loci counted at each locus).",
          "DESIGN.md §3 C08"),
+ "C09": ("exploration",
+         "bounded-exhaustive enumeration of read multisets x every iteration order of the read-group container on the real counters; pipeline runs over grouping modes x formats x group iteration orders x threads",
+         "Groupers are driven over documented input classes (tag present/absent, 0-2 delimiters, table hit/miss/malformed, labels). The real gene "
+         "and transcript AssignedFeatureCounter is run on every multiset of <=2/3 reads over 3 groups with the group container presented in every "
+         "iteration order (the hash-seed dependent choice is owned explicitly), for every output format; matrix and linear triples must be equal "
+         "and equal the expected ones. Pipeline: 4 grouping modes x formats x group iteration orders (hook on load_read_info) x threads 1/2 on a "
+         "world with groups absent from a chromosome, ungroupable reads and a cross-chromosome multi-mapper; per-group sums must equal ungrouped "
+         "counts and every read must be counted under its documented group.",
+         "Trusted: expected-count construction in props/c09.py (worlds contain only uniquely assigned reads).",
+         "DESIGN.md §3 C09"),
 }
 
 NOT_YET = {}
